@@ -440,6 +440,9 @@ func cmdRun(args []string) int {
 				return 2
 			}
 			unitOf[e] = u
+			if len(results) > 0 {
+				solver.Reset() // definitions of earlier entries only slow the solver down
+			}
 			t0 := time.Now()
 			splitAt := 0
 			if jobs > 1 {
